@@ -458,7 +458,7 @@ def r08_7(ctx, rep, g, P, rule="R08.7"):
     rep.rule(rule, "the worker publishes done_seq only after all effects of the covered requests: between the store and the next recv there is no "
                    "file mutation, sync, callback or boundary update")
     stores = [n for n in P.calls(r"atomic::Atomic(U64|Usize)?(::<u64>)?::(store|fetch_max|fetch_add|swap)$") if has_field(strip_ids(event_args(g, n)[0]), "done_seq")]
-    rep.floor(rule, "done_seq updates in the worker", len(stores), 2)
+    rep.floor(rule, "done_seq updates in the worker", len(stores), 1)
     recvs = set(P.calls(r"mpsc::Receiver::<T>::recv$"))
     effects = set(P.calls(c04.WRITE_RX)) | set(P.calls(c04.SYNC_RX)) | set(P.calls(r"fs::(remove_file|rename)$")) | \
         set(P.calls(r"callback::Callback::send$"))
